@@ -10,7 +10,7 @@
     rethrows  a catch block with `throw e`, or a native frame doing panic(ex.Value()) (new *Exception, same value)
     isSplit   the rest of the chain runs as a promise job (Promise.then / `await`)
 -/
-import GojaModel.C14.CarryGo
+import GojaModel.C14.Abort
 
 set_option linter.unusedVariables false
 
@@ -47,12 +47,26 @@ theorem catch_receives_identity (entry : Entry) (chain : List Frame) (p : Payloa
     (hp : p = .jsThrow v ∨ p = .natPanicVal v) (hrw : ∀ f ∈ chain, f.rewraps = false)
     (hu : v.goErrValue = none ∨ ∀ f ∈ chain, f.unwraps = false) :
     ∀ l ∈ (hostRun entry chain p).log, ∀ w, (l.kind = .caught w ∨ l.kind = .asyncReject w) → w = v := by
-  have hrw : ∀ f ∈ chain, f.rewraps = false ∧ f.replaces = false := fun f hf => ⟨hrw f hf, rfl⟩
   have hc : Carries v p.flow := by
     rcases hp with rfl | rfl <;> simp [Payload.flow, Carries]
   intro l hl w hw
-  rcases hostRun_log_ok entry chain p hc hrw hu l hl with h | h | h | h <;>
+  rcases hostRun_log_ok3 entry chain p hc hrw hu l hl with h | h | h | h <;>
     rcases hw with hw | hw <;> rw [h] at hw <;> cases hw <;> rfl
+
+/-- What the host receives (no job frame), whatever ends the propagation on the way — a swallowing catch, an async
+function, a native frame that drops the error, or an UNCATCHABLE error raised while handleThrow closes an iterator for
+the exception (it replaces the exception in flight; fix 404e270 makes handleThrow unwind for it): nothing, the thrown
+value `v`, or an uncatchable error — never a different catchable value. -/
+theorem identity_or_abort (entry : Entry) (chain : List Frame) (p : Payload) (v : JsVal)
+    (hp : p = .jsThrow v ∨ p = .natPanicVal v) (hrw : ∀ f ∈ chain, f.rewraps = false)
+    (hu : v.goErrValue = none ∨ (entry ≠ .exported ∧ ∀ f ∈ chain, f.unwraps = false))
+    (hn : hasSplit chain = false) :
+    (hostRun entry chain p).host = .ok ∨
+    (∃ ex, (hostRun entry chain p).host = .err (.exc ex) ∧ ex.val = v) ∨
+    (∃ e, (hostRun entry chain p).host = .err (.go e) ∧ e.isUncatchable = true) := by
+  have hc : Carries v p.flow := by
+    rcases hp with rfl | rfl <;> simp [Payload.flow, Carries]
+  exact hostRun_identity_or_abort entry chain p hc hrw hu hn
 
 /-- Regression lemma about `Runtime.ForOf` BEFORE fix 51964d9 (`iter.returnIter()` unguarded after the step
 callback threw): an exception thrown by the iterator's return() replaced the original one.  (Now the `fot` frame
@@ -340,13 +354,15 @@ theorem recover_sites_agree (fl : Flow) (a b : Bool) :
 
 /-- `lastRaise` (defined frame by frame) is what its name says: the top is decided by the OUTERMOST frame that
 raises the value anew — a catch block with `throw e` (top = that `throw e` statement, unless `v` is an Error
-object with a non-empty own stack) or a native `panic(ex.Value())` (top = native position / the Error object's own
-stack) — and by the innermost raise (`init`) if there is no such frame. -/
+object with a non-empty own stack), a native `panic(ex.Value())` (top = native position / the Error object's own
+stack) or `g.throw(e)` into a suspended generator (top = the generator's yield / the own stack) — and by the innermost
+raise (`init`) if there is no such frame. -/
 theorem lastRaise_outermost (v : JsVal) (init : StackTop) (s : Seg) :
     lastRaise v init s =
       match s.find? (fun q => q.2.rethrows) with
       | none => init
       | some (i, .fcv) => nativeTop v
+      | some (i, .jgt) => genThrowTop i v
       | some (i, _) => (throwExec (.rethrow i) v).top := by
   induction s with
   | nil => rfl
@@ -422,6 +438,7 @@ theorem stack_top_of_error_object_is_own_stack (entry : Entry) (chain : List Fra
   have hte : ∀ site, (throwExec site v).top = s := by
     intro site; cases s <;> simp_all [throwExec]
   have hnt : nativeTop v = s := by simp [nativeTop, hv]
+  have hgt : ∀ i, genThrowTop i v = s := by intro i; simp [genThrowTop, hv]
   have hl : ∀ sg : Seg, lastRaise v s sg = s := by
     intro sg
     induction sg with
@@ -430,23 +447,23 @@ theorem stack_top_of_error_object_is_own_stack (entry : Entry) (chain : List Fra
       obtain ⟨i, f⟩ := hd
       cases f with
       | js k => cases k <;> simp [lastRaise, stepTop, JsKind.rethrows, ih, hte]
-      | _ => simp [lastRaise, stepTop, ih, hnt]
+      | _ => simp [lastRaise, stepTop, ih, hnt, hgt]
   obtain ⟨h1, h2⟩ := stack_top_eq_last_raise_site entry chain p v hsw hrw hu hn
   rcases hp with rfl | rfl
   · rw [h1 rfl, hte, hl]
   · rw [h2 rfl, hnt, hl]
 
 /-- Native panics: `panic(v)` in a native function, nobody re-raises by `throw e`: the top is a native position
-(class `other`) for a value without own stack. -/
+(class `other`) for a value without own stack (`hr`: the only re-raising frames are native `panic(ex.Value())` ones). -/
 theorem stack_top_of_native_panic (entry : Entry) (chain : List Frame) (v : JsVal)
     (hv : v.ownStack = none)
     (hsw : ∀ f ∈ chain, f.swallows = false) (hrw : ∀ f ∈ chain, f.rewraps = false)
-    (hr : ∀ f ∈ chain, ∀ k, f = .js k → k.rethrows = false)
+    (hr : ∀ f ∈ chain, f.rethrows = true → f = .fcv)
     (hu : v.goErrValue = none ∨ (entry ≠ .exported ∧ ∀ f ∈ chain, f.unwraps = false))
     (hn : hasSplit chain = false) :
     (hostRun entry chain (.natPanicVal v)).host = .err (.exc ⟨v, .other⟩) := by
   have hnt : nativeTop v = .other := by simp [nativeTop, hv]
-  have hl : ∀ (j : Nat) (fs : List Frame), (∀ f ∈ fs, ∀ k, f = .js k → k.rethrows = false) →
+  have hl : ∀ (j : Nat) (fs : List Frame), (∀ f ∈ fs, f.rethrows = true → f = .fcv) →
       lastRaise v .other (indexed j fs) = .other := by
     intro j fs
     induction fs generalizing j with
@@ -456,8 +473,12 @@ theorem stack_top_of_native_panic (entry : Entry) (chain : List Frame) (v : JsVa
       have ih' := ih (j + 1) (fun g hg => h g (List.mem_cons_of_mem _ hg))
       cases f with
       | js k =>
-        have := h (.js k) (List.mem_cons_self ..) k rfl
+        have : k.rethrows = false := by
+          cases hk : k.rethrows with
+          | false => rfl
+          | true => have := h (.js k) (List.mem_cons_self ..) (by simp [Frame.rethrows, hk]); cases this
         simp [indexed, lastRaise, stepTop, this, ih']
+      | jgt => have := h .jgt (List.mem_cons_self ..) rfl; cases this
       | _ => simp [indexed, lastRaise, stepTop, ih', hnt]
   rw [(stack_top_eq_last_raise_site entry chain _ v hsw hrw hu hn).2 rfl, hnt, hl 0 chain hr]
 
@@ -572,5 +593,12 @@ example : (hostRun .runString [.js .jf, .rfw, .js .jf] (.jsThrow (.obj 1))).host
 /-- an async function absorbs the exception into its promise -/
 example : (hostRun .runString [.js .jcf, .ja, .js .jf] (.jsThrow (.prim 1))).log =
     [⟨2, .fin⟩, ⟨1, .asyncReject (.prim 1)⟩, ⟨0, .fin⟩] := by decide
+
+/-- an uncatchable error raised while the iterator is closed for O1 replaces it; the outer catch/finally see nothing -/
+example : (hostRun .runString [.js .jcf, .jiu, .js .jf] (.jsThrow (.obj 1))).host = .err (.go (.stackOverflow 8)) ∧
+    (hostRun .runString [.js .jcf, .jiu, .js .jf] (.jsThrow (.obj 1))).log = [⟨2, .fin⟩, ⟨1, .iterReturn⟩] := by decide
+
+/-- g.throw(e) raises the caught value at the generator's yield -/
+example : (hostRun .runString [.js .jf, .jgt] (.jsThrow (.prim 1))).host = .err (.exc ⟨.prim 1, .genYield 1⟩) := by decide
 
 end GojaModel.C14
